@@ -50,7 +50,15 @@ def cantera_world(src):
     names = ["density", "x_velocity"][:pre]
     if temp_first:
         names.append("temp")
-    names += [f"Y({s})" for s in sp]
+    ynames = [f"Y({s})" for s in sp]
+    permuted = bool(src.draw("w.species_permuted", 0, 5) == 5)
+    if permuted:
+        # the species block holds every species but not in the mechanism's order (first species kept
+        # first): the chef must either refuse it or use each mass fraction for ITS species
+        a = src.draw("w.perm.a", 1, len(sp) - 2)
+        b = src.draw("w.perm.b", a + 1, len(sp) - 1)
+        ynames[a], ynames[b] = ynames[b], ynames[a]
+    names += ynames
     if not temp_first:
         names.append("temp")
     names += ["mag_vort"][:post]
@@ -78,6 +86,8 @@ def cantera_world(src):
             lvd.append(arr)
         m.data.append(lvd)
     world.gen_cosmetics(src, m, "w")
+    m.species_permuted = permuted
+    m.ycols = [names.index(f"Y({s})") for s in sp]
     return m, it, iy, len(sp)
 
 
@@ -164,7 +174,7 @@ class ChefBuiltinT(tools.ToolCase):
 
         def fn(lv, b, arr):
             T = arr[..., self.it].copy()
-            Y = arr[..., self.iy:self.iy + self.nsp].copy()
+            Y = arr[..., self.m.ycols].copy()        # by NAME: column of Y(species k) for mechanism species k
             bad = np.isclose(T, 0) | np.isclose(Y.sum(axis=-1), 0)
             self.undefined[(lv, b)] = bad
             T[np.isclose(T, 0)] = 1000.0
@@ -233,7 +243,9 @@ def run_case(ctx):
         tool.opts["in_form"] = tool.opts["in_form"][:-1]
     if tool.opts["out"] == "default":
         tool.opts["out"] = "abs"
-    twice = bool(src.draw("second_cook", 0, 2) == 2)
+    n_earlier = src.draw("second_cook", 0, 2)       # earlier cooks in the same process: 0, 1 or 2
+    n_earlier = {0: 0, 1: 0, 2: 1}[n_earlier] if not src.flag("two_earlier", 3) or n_earlier < 2 else 2
+    twice = n_earlier > 0
     if twice:
         # cached workers keep the cwd they were forked in: do not make the outcome depend on the
         # harness changing directory between the two cooks
@@ -241,35 +253,43 @@ def run_case(ctx):
         tool.opts["out"] = "abs"
     both = bool(src.draw("both_modes", 0, 2) == 2) and not tool.opts["cli"]
     sig = {"property": ID, "recipe": getattr(tool, "recipe", None) or tool.opts.get("recipe"),
+           "permuted_species": bool(getattr(tool.m, "species_permuted", False)),
            "kept": bool(tool.kept), "mode": "serial" if tool.serial else "parallel",
            "entry": "cli" if tool.opts["cli"] else "api"}
     tol = 1e-10 if builtin else 0
     root = os.path.join(ctx.scratch, "run0")
     tool.prepare_root(root)
-    if twice:
-        # an earlier cook in the same process (another plotfile, other box shapes)
-        first = tools.ChefUserT()
-        fsrc = src
-        m0 = world.gen_world(src, tag="first", force_3d=True, special_ok=False, max_levels=2)
-        first.m = m0
-        first.kind, first.i, first.j, first.newnames, first.kept = "lin", 0, 0, ["new_a"], []
-        first.serial = False
-        first.opts.update(in_form="abs", cwd="work", out="abs", cli=False)
-        r0 = os.path.join(ctx.scratch, "first")
-        first.prepare_root(r0)
-        if builtin:
-            # same kind of cook, so that the worker-side globals are populated by it
+    for e in range(n_earlier):
+        # earlier cooks in the same process (other plotfiles, other box shapes, other pressure):
+        # a Cantera cook populates the worker-side globals, a plain user recipe does not need them;
+        # with two earlier cooks the kinds alternate (Cantera first), otherwise the kind follows
+        # the cook under test
+        use_builtin = builtin if n_earlier == 1 else (e == 0)
+        r0 = os.path.join(ctx.scratch, f"earlier{e}")
+        if use_builtin:
             b0 = ChefBuiltinT()
-            b0.m, b0.it, b0.iy, b0.nsp = cantera_world_small(src)
-            b0.recipe, b0.species, b0.reactions, b0.pressure, b0.kept, b0.serial = "ENT", None, None, 1.0, [], False
+            b0.m, b0.it, b0.iy, b0.nsp = cantera_world_small(src, e)
+            b0.recipe, b0.species, b0.reactions, b0.pressure, b0.kept, b0.serial = "HRR", None, None, 0.5, [], False
             b0.opts.update(in_form="abs", cwd="work", out="abs", cli=False)
-            shutil.rmtree(r0)
-            b0.prepare_root(r0)
             first = b0
-        o0 = first.call(ctx, r0)
-        ctx.probe("second_cook_cases")
+        else:
+            first = tools.ChefUserT()
+            first.m = world.gen_world(src, tag=f"first{e}", force_3d=True, special_ok=False, max_levels=2)
+            first.kind, first.i, first.j, first.newnames, first.kept = "lin", 0, 0, ["new_a"], []
+            first.serial = False
+            first.opts.update(in_form="abs", cwd="work", out="abs", cli=False)
+        first.prepare_root(r0)
+        first.call(ctx, r0)
+        ctx.probe("earlier_cooks")
         ctx.reset_pools(keep_pathos_cache=True)
     o = tool.call(ctx, root)
+    if not o.ok and getattr(tool.m, "species_permuted", False):
+        # refusing a species block that is not in the mechanism's order is the documented behaviour
+        ctx.probe("permuted_species_refused")
+        ctx.nontrivial = True
+        ctx.case_key = common.key_of(["permuted-refused", tool.describe()])
+        ctx.sample = {"tool": tool.describe(), "permuted_species": True, "refused": True}
+        return
     if not o.ok:
         raise Violation({**sig, "oracle": "cook-raises", **o.exc_sig(), "second_cook": twice, "fork": ctx.fork_mode},
                         f"chef raised {o.exc!r}; {tool.describe()}; second_cook={twice} fork={ctx.fork_mode}")
@@ -298,9 +318,12 @@ def run_case(ctx):
                   "tool": tool.describe(), "fork_pool": ctx.fork_mode, "second_cook": twice, "both_modes": both}
 
 
-def cantera_world_small(src):
+def cantera_world_small(src, e=0):
     from ..choice import RandomSource
-    return cantera_world(RandomSource(src.draw("first.seed", 0, 999)))
+    w = cantera_world(RandomSource(src.draw(f"first{e}.seed", 0, 999)))
+    if getattr(w[0], "species_permuted", False):
+        w = cantera_world(RandomSource(0))
+    return w
 
 
 def evidence_extra(stats):
